@@ -13,6 +13,14 @@ called on its own on `make_view<Msg>(p, n)`: outcome ok / ASSERT / FAULT / UB.
         required: never FAULT/UB; needs_end <= n and preconditions hold  =>  ok
   model (Lean Rt.Guards via `guard` requests: the extracted checks evaluated with C++ semantics +
         hand model of the touched bytes)  run = ok / ASSERT / FAULT
+Second buffer mode (canary) for every chain whose last accessor WRITES (setters, array element writes and
+assign_range, and the mutating operations of <data>: assign_range, assign(first,last), assign(n,v), assign(ilist),
+assign_string, insert*, push_back, pop_back, clear, erase*, resize*): the view [p, p+n) lies inside an allocation
+whose tail is filled with canary bytes, so an out-of-view write completes: outcome in {ok, ASSERT} x {canary intact,
+modified}.  modified without handler = silent out-of-view write (cause silent-oob-write); modified then handler =
+write before check (the open finding); intact + needs satisfied + handler = spurious.  State sweep for <data>: the
+stored length prefix is set to {0, k-1, k, k+1, max} relative to the number k of elements assigned/inserted.
+
 impl vs spec  -> chk.report_failure with a narrow `case`
 model vs impl -> chk.report_unproved
 """
@@ -41,6 +49,9 @@ THEOREMS = [
     'Sbepp.Properties.C10.no_silent_access_partial',
     'Sbepp.Properties.C10.no_silent_access_full_false',
     'Sbepp.Properties.C10.write_before_check_false',
+    'Sbepp.Properties.C10.resize_check_unconditional',
+    'Sbepp.Properties.C10.completed_call_clean',
+    'Sbepp.Properties.C10.no_silent_write',
     'Sbepp.Properties.C10.guard_sound_cursor_partial',
     'Sbepp.Properties.C10.no_silent_access_cursor_partial',
     'Sbepp.Properties.C10.guard_sound_cursor_full_false',
@@ -69,7 +80,8 @@ def extract_all(chk):
 
 class Item:
     """one image of one message with its chains"""
-    __slots__ = ('case', 'm', 'img', 'mut', 'chains', 'evals', 'model', 'impl', 'cur', 'cruns', 'cmodel')
+    __slots__ = ('case', 'm', 'img', 'mut', 'chains', 'evals', 'model', 'impl', 'cur', 'cruns', 'cmodel', 'cidx',
+                 'canary_model', 'extra_counts')
 
     def __init__(self, case, m, img, mut):
         self.case, self.m, self.img, self.mut = case, m, img, mut
@@ -80,9 +92,13 @@ class Item:
         self.cur = None       # c10gen.CursorSpec
         self.cruns = []       # [(k, var, needs_end, kind)]
         self.cmodel = None
+        self.cidx = []            # indices of the chains whose last accessor writes (canary mode)
+        self.canary_model = None
+        self.extra_counts = ()
 
 
-def build_items(chk, run, values_per_msg, muts_per_image, max_image, max_chains, max_cursor_members=40):
+def build_items(chk, run, values_per_msg, muts_per_image, max_image, max_chains, max_cursor_members=40,
+                sweep_sites=1):
     items = []
     skipped = 0
     for c in run.cases:
@@ -115,13 +131,34 @@ def build_items(chk, run, values_per_msg, muts_per_image, max_image, max_chains,
                 rng.shuffle(picks)
                 for s, val in picks[:muts_per_image]:
                     variants.append((c10gen.mutate(bo, img, s, val),
-                                     {'field': s[2], 'off': s[0], 'from': s[3], 'to': val}))
-                for im, mut in variants:
+                                     {'field': s[2], 'off': s[0], 'from': s[3], 'to': val}, ()))
+                variants[0] = (img, None, ())
+                # state sweep for <data>: stored length prefix in {0, k-1, k, k+1, max} relative to the number k of
+                # elements assigned / inserted (the chains then use k-1, k, k+1 and every view size around them)
+                dsites = [s for s in sites if s[2] == 'data.length']
+                rng.shuffle(dsites)
+                for s in dsites[:sweep_sites]:
+                    k = s[3] if 1 <= s[3] <= 6 else 2
+                    mxv = min(256 ** s[1] - 1, (1 << 32) - 1)
+                    for pv in sorted({0, k - 1, k, k + 1, mxv}):
+                        if pv == s[3]:
+                            continue
+                        variants.append((c10gen.mutate(bo, img, s, pv),
+                                         {'field': s[2], 'off': s[0], 'from': s[3], 'to': pv, 'sweep_k': k},
+                                         (k - 1, k, k + 1)))
+                    variants[0] = (img, None, variants[0][2] + (k - 1, k, k + 1))
+                for im, mut, extra in variants:
                     it = Item(c, m, im, mut)
+                    it.extra_counts = extra
                     spec = c10gen.Spec(bo, m, im)
-                    it.chains = c10gen.enum_chains(spec, max_chains=max_chains)
+                    sweep = bool(mut and 'sweep_k' in mut)
+                    it.chains = c10gen.enum_chains(spec, max_chains=4 * max_chains if sweep else max_chains,
+                                                   extra_counts=extra, only_data=sweep)[:max_chains]
                     it.evals = [spec.eval(ch) for ch in it.chains]
-                    if c10gen.exact_composites(c.s, m['name']):
+                    it.cidx = [j for j, ev in enumerate(it.evals) if ev.mutating]
+                    if sweep:
+                        pass
+                    elif c10gen.exact_composites(c.s, m['name']):
                         it.cur = c10gen.CursorSpec(c10gen.Spec(bo, m, im))
                         it.cruns = it.cur.runs()[:5 * max_cursor_members]
                     else:
@@ -199,7 +236,7 @@ def judge(chk, run, it, cxx, std, impl, stats):
                     cause = 'pointer-range-overflow'
                 elif past:
                     cause = 'view-begins-past-end'
-                elif ev.kind in ('data.assign_range',) and got == 'F':
+                elif ev.kind in ('data.assign_range', 'data.assign_iter') and got == 'F':
                     cause = 'write-before-check'
                 elif ev.kind in ('data.insert_n', 'data.insert') and got == 'F':
                     cause = 'unknown-container'
@@ -242,6 +279,95 @@ def judge(chk, run, it, cxx, std, impl, stats):
                 chk.report_unproved('model-spec-verdict', {'chain': ev.cpp_path, 'n': n})
             if ev.modelled and mrun[j] == 'o' and mguard[j] != 'g':
                 chk.report_unproved('model-run-without-guard', {'chain': ev.cpp_path, 'n': n})
+
+
+def judge_canary(chk, run, it, cxx, std, impl, stats):
+    """canary mode: impl / model blocks (per n) hold one character per MUTATING chain:
+    o / A with the bytes behind the view intact, w = completed although they were modified (silent out-of-view
+    write), W = handler invoked after they were modified, F, U"""
+    L = len(it.img)
+    reported = set()
+    evs = [it.evals[j] for j in it.cidx]
+    for ev in evs:
+        kn = 'canary:' + ev.kind
+        stats['kinds'][kn] = stats['kinds'].get(kn, 0) + L + 1
+    for n in range(L + 1):
+        ib = impl[n]
+        mb = it.canary_model[n]
+        chk.cov['evaluations'] += len(evs)
+        stats['canary_calls'] += len(evs)
+        for ch in 'oAwWFU?':
+            k = ib.count(ch)
+            if k:
+                stats['canary_outcomes'][ch] = stats['canary_outcomes'].get(ch, 0) + k
+        for j, ev in enumerate(evs):
+            got = ib[j]
+            exp = 'o' if (ev.needs_end <= n and ev.pre_ok) else 'A'
+            mod = mb[j]
+            if got == exp and (mod == got or mod == '-'):
+                continue
+            past = ev.past_end(n)
+            undefined = ev.huge or got == 'U' or mod == 'U'
+            bad = None
+            cause = 'none'
+            outcome = {'o': 'ok', 'A': 'ASSERT', 'w': 'ok-after-write', 'W': 'ASSERT-after-write', 'F': 'FAULT',
+                       'U': 'UB', '?': 'BADPATH'}[got]
+            if got == 'w':
+                bad = 'out-of-view-write-not-asserted'
+                cause = 'pointer-range-overflow' if undefined else 'silent-oob-write'
+            elif got == 'W':
+                bad = 'out-of-view-write-before-assertion'
+                cause = 'pointer-range-overflow' if undefined else 'write-before-check'
+            elif got in 'FU':
+                bad = 'out-of-view-access-not-asserted' if got == 'F' else 'undefined-behaviour'
+                cause = 'pointer-range-overflow' if undefined else ('view-begins-past-end' if past else 'unknown')
+            elif got == '?':
+                chk.report_unproved('driver-path', {'chain': ev.cpp_path, 'message': it.m['name']})
+            elif exp == 'o' and got == 'A':
+                bad = 'spurious-assertion'
+                cause = 'pointer-range-overflow' if undefined else 'unknown'
+            elif exp == 'A' and got == 'o':
+                if undefined:
+                    stats['wrap_regime_ok'] += 1
+                elif past:
+                    bad = 'check-passed-on-view-past-end'
+                    cause = 'view-begins-past-end'
+                else:
+                    stats['ok_beyond_needs'] += 1
+                    stats['ok_beyond_needs_kinds'][ev.kind] = stats['ok_beyond_needs_kinds'].get(ev.kind, 0) + 1
+            key = (j, bad, cause)
+            if bad and key not in reported:
+                reported.add(key)
+                stats['violations_by_cause'][cause] = stats['violations_by_cause'].get(cause, 0) + 1
+                case = {'accessor': ev.kind, 'n': n, 'mode': 'canary',
+                        'needs_end': (ev.needs_end if ev.needs_end < c10gen.INF else 'beyond-image'),
+                        'outcome': outcome, 'expected': CH[exp], 'what': bad, 'cause': cause,
+                        'view_begin': ev.view_begin, 'mutated': it.mut['field'] if it.mut else 'none',
+                        'model': mod, 'cxx': cxx, 'std': std, 'max_hdr_bytes': c10gen.max_hdr_bytes(it.m)}
+                chk.report_failure({
+                    'kind': 'impl≠spec', 'config': {'cxx': cxx, 'std': std, 'defines': ['SBEPP_ENABLE_ASSERTS_WITH_HANDLER']},
+                    'schema_xml': open(it.case.xml).read(), 'schema_sexp': it.case.sexp, 'message': it.m['name'],
+                    'image': wire.hexs(it.img), 'mutation': it.mut, 'n': n, 'chain': ev.cpp_path, 'steps': ev.steps,
+                    'buffer_mode': 'view [p, p+n) inside an allocation of n + %d bytes, tail filled with 0x%02x' % (
+                        c10gen.CANARY_SLACK, c10gen.CANARY_FILL),
+                    'driver_line': 'canary %s %s %d %d %s' % (it.m['name'], wire.hexs(it.img), n, c10gen.CANARY_SLACK,
+                                                             ev.cpp_path),
+                    'model_line': c10gen.lean_request(it.case.layout['byteOrder'], BASE, it.img, str(n), it.m,
+                                                      [(ev.needs_end, ev.lean_ops if ev.modelled else 'sz')],
+                                                      canary=True),
+                    'observed': {'impl': outcome, 'spec': CH[exp], 'model': mod},
+                    'case': case})
+            if mod not in ('-', 'U') and not ev.huge and got != mod and ('model', j) not in reported:
+                reported.add(('model', j))
+                stats['model_mismatch'] += 1
+                chk.report_unproved('impl≠model (Rt.Guards, canary mode)', {
+                    'chain': ev.cpp_path, 'lean_ops': ev.lean_ops, 'n': n, 'impl': got, 'model': mod, 'spec': exp,
+                    'schema_xml': open(it.case.xml).read(), 'message': it.m['name'], 'image': wire.hexs(it.img),
+                    'cxx': cxx, 'std': std,
+                    'driver_line': 'canary %s %s %d %d %s' % (it.m['name'], wire.hexs(it.img), n, c10gen.CANARY_SLACK,
+                                                             ev.cpp_path),
+                    'model_line': c10gen.lean_request(it.case.layout['byteOrder'], BASE, it.img, str(n), it.m,
+                                                      [(ev.needs_end, ev.lean_ops)], canary=True)})
 
 
 def judge_cursor(chk, run, it, cxx, std, impl, stats):
@@ -322,12 +448,12 @@ def judge_cursor(chk, run, it, cxx, std, impl, stats):
 
 
 def run_schemas(chk, nschemas, configs, values_per_msg, muts_per_image, max_image=200, max_chains=160,
-                max_cursor_members=24):
+                max_cursor_members=24, sweep_sites=1):
     run = W.WireRun(chk, nschemas, configs, values_per_msg=values_per_msg, seed_salt=10, max_depth=3)
     stats = {'calls': 0, 'kinds': {}, 'outcomes': {}, 'boundary': 0, 'ok_beyond_needs': 0, 'model_mismatch': 0,
              'ok_beyond_needs_kinds': {}, 'ok_beyond_needs_samples': [], 'violations_by_cause': {}, 'model_undefined': 0, 'wrap_regime_ok': 0, 'spec_only_calls': 0,
              'images': 0, 'mutated_images': 0, 'chains': 0, 'truncation_points': 0, 'cursor_calls': 0,
-             'cursor_runs': 0}
+             'cursor_runs': 0, 'canary_calls': 0, 'canary_outcomes': {}, 'canary_chains': 0}
     try:
         if not run.prepare():
             return run, stats
@@ -351,7 +477,9 @@ def run_schemas(chk, nschemas, configs, values_per_msg, muts_per_image, max_imag
                 else:
                     drivers[(c.idx, cxx, std)] = exe
         chk.log('drivers built: %d' % len(drivers))
-        items = build_items(chk, run, values_per_msg, muts_per_image, max_image, max_chains, max_cursor_members)
+        items = build_items(chk, run, values_per_msg, muts_per_image, max_image, max_chains, max_cursor_members,
+                            sweep_sites)
+        stats['canary_chains'] = sum(len(it.cidx) for it in items)
         stats['images'] = len(items)
         stats['mutated_images'] = sum(1 for it in items if it.mut)
         stats['chains'] = sum(len(it.chains) for it in items)
@@ -365,6 +493,10 @@ def run_schemas(chk, nschemas, configs, values_per_msg, muts_per_image, max_imag
                                                [r[2] for r in it.cruns]))
                  for i, it in enumerate(items) if it.cruns]
         stats['cursor_runs'] = sum(len(it.cruns) for it in items)
+        kreqs = [(i, c10gen.lean_request(it.case.layout['byteOrder'], BASE, it.img, 'all', it.m,
+                                         [(it.evals[j].needs_end, it.evals[j].lean_ops) for j in it.cidx
+                                          if it.evals[j].modelled], canary=True))
+                 for i, it in enumerate(items) if it.cidx]
 
         def model_chunk(lines):
             return run.model_lines(lines)
@@ -404,6 +536,30 @@ def run_schemas(chk, nschemas, configs, values_per_msg, muts_per_image, max_imag
                         it.cruns = []
                     else:
                         it.cmodel = [b.split('/') for b in blocks]
+        kchunks = [kreqs[i::core.NPROC] for i in range(core.NPROC)]
+        kchunks = [ch for ch in kchunks if ch]
+        with cf.ThreadPoolExecutor(core.NPROC) as ex:
+            for ch, outs in zip(kchunks, ex.map(lambda ch: run.model_lines([r[1] for r in ch]), kchunks)):
+                for (i, rq), o in zip(ch, outs):
+                    blocks = o.split(',')
+                    it = items[i]
+                    if o.startswith('bad-op') or len(blocks) != len(it.img) + 1:
+                        chk.report_unproved('model-guard-canary', {'answer': o[:300], 'request': rq[:800]})
+                        it.cidx = []
+                        continue
+                    rows = []
+                    for b in blocks:
+                        runs = b.split('/')[0]
+                        k = 0
+                        row = []
+                        for j in it.cidx:
+                            if it.evals[j].modelled:
+                                row.append(runs[k])
+                                k += 1
+                            else:
+                                row.append('-')
+                        rows.append(''.join(row))
+                    it.canary_model = rows
         chk.log('model answers done')
         # implementation
         per_driver = {}
@@ -423,6 +579,9 @@ def run_schemas(chk, nschemas, configs, values_per_msg, muts_per_image, max_imag
                                                      ';'.join(ev.cpp_path for ev in items[i].evals)))
                 lines.append('ctrav %s %s all %d' % (items[i].m['name'], wire.hexs(items[i].img) or '-',
                                                     len(items[i].cruns) // 5))
+                lines.append('canary %s %s all %d %s' % (
+                    items[i].m['name'], wire.hexs(items[i].img) or '-', c10gen.CANARY_SLACK,
+                    ';'.join(items[i].evals[j].cpp_path for j in items[i].cidx) or 'z'))
             rc, outs = run.run_driver(exe, lines)
             return job, rc, outs
         with cf.ThreadPoolExecutor(core.NPROC) as ex:
@@ -430,12 +589,18 @@ def run_schemas(chk, nschemas, configs, values_per_msg, muts_per_image, max_imag
         chk.log('driver runs done')
         nontrivial = set()
         for ((exe, cxx, std), idxs), rc, outs in results:
-            if rc != 0 or len(outs) != 2 * len(idxs):
-                chk.report_unproved('driver-run', {'rc': rc, 'answers': len(outs), 'requests': 2 * len(idxs),
+            if rc != 0 or len(outs) != 3 * len(idxs):
+                chk.report_unproved('driver-run', {'rc': rc, 'answers': len(outs), 'requests': 3 * len(idxs),
                                                    'tail': outs[-1][:200] if outs else ''})
                 continue
-            for i, o, oc in zip(idxs, outs[0::2], outs[1::2]):
+            for i, o, oc, ok_ in zip(idxs, outs[0::3], outs[1::3], outs[2::3]):
                 it = items[i]
+                if it.cidx and it.canary_model is not None:
+                    kblocks = ok_.split(',')
+                    if len(kblocks) != len(it.img) + 1 or any(len(b) != len(it.cidx) for b in kblocks):
+                        chk.report_unproved('driver-answer-canary', {'answer': ok_[:200], 'message': it.m['name']})
+                    else:
+                        judge_canary(chk, run, it, cxx, std, kblocks, stats)
                 if it.cruns and it.cmodel is not None:
                     cblocks = oc.split(',')
                     if len(cblocks) != len(it.img) + 1 or any(len(b) != len(it.cruns) for b in cblocks):
